@@ -62,6 +62,24 @@ def cases(rng, tier):
         t = rng.choice([1, 2, 16, 32])
         data = CG.rand_data(rng, k * t)
         cases.blocks.append((CG.sbd_case(rng, k, t, 1, 1, rng.choice([0, 1]), [esis], data), data))
+    # large blocks on the sparse back-end (release profile only: the debug solver's self-checks are O(L^2) per
+    # step): above ~800 symbols the dense tail of the sparse matrix spans several 64-bit words per row and the
+    # inactivated part exceeds 64 columns; block sizes whose P = L - W is a multiple of 64, and sizes around the
+    # places where the number of inactivated columns crosses a word boundary, are always included
+    cases.big = []
+    special = [835, 860, 870, 891, 913, 950, 1002, 1236, 1281, 1616, 1640, 1649, 1673, 1698, 2005]
+    ks = rng.shuffle(special)[: (5 if tier == "quick" else 15)] + [rng.range(830, 3000) for _ in range(5 if tier == "quick" else 40)]
+    ks += [rng.choice([6589, 6655, 5008, 10002, 14862])] if tier == "quick" else [6589, 6655, 14862, 26291, 56403]
+    for k in ks:
+        t = rng.choice([1, 1, 2, 4])
+        lost = set(rng.shuffle(list(range(k)))[: rng.range(1, 8)])
+        rep_ = set()
+        while len(rep_) < len(lost) + rng.choice([0, 0, 1, 2]):
+            rep_.add(rng.choice([k + rng.below(64), rng.range(k, (1 << 24) - 1)]))
+        esis = rng.shuffle([e for e in range(k) if e not in lost] + sorted(rep_))
+        data = CG.rand_data(rng, k * t)
+        thr = 0 if k > 1700 else rng.choice([0, 0, 1, 100000])
+        cases.big.append((CG.sbd_case(rng, k, t, 1, 1, thr, [esis[:-1], esis[-1:]], data), data))
     return cs
 
 
@@ -81,6 +99,15 @@ def evaluate(cs, rep, tier):
                 if t[1] == "1" and [int(x) for x in t[2:]] != data:
                     counter.append({"input": c.impl_line()[:700], "expected": "exactly the block", "observed": "different bytes", "profile": prof, "oracle": "C01 (repair-only reception)"})
                     break
+    big = getattr(cases, "big", [])
+    if big:
+        for (c, data), r in zip(big, C.run_impl_crashsafe([c for c, _ in big], "release", chunk=4, timeout=900)):
+            t = r.split()
+            nb = c.args[5]
+            if t[0] != "1":
+                counter.append({"input": c.impl_line()[:300] + " ...", "expected": "None or the block", "observed": "panic / crash: " + r[:60], "profile": "release", "oracle": "C01 (large block, K=%d, threshold code %d)" % (c.args[0], c.args[4]), "replay_case": c.impl_line()})
+            elif t[nb] == "1" and [int(x) for x in t[1 + nb :]] != data:
+                counter.append({"input": c.impl_line()[:300] + " ...", "expected": "exactly the block", "observed": "different bytes", "profile": "release", "oracle": "C01 (large block, K=%d, threshold code %d)" % (c.args[0], c.args[4]), "replay_case": c.impl_line()})
     repaired = 0
     for idx, c in enumerate(cs):
         f = c.args[0]
@@ -128,7 +155,7 @@ def evaluate(cs, rep, tier):
             "stats": {"evaluations": len(cs) * 4, "distinct_nontrivial": repaired, "huge_object_decoder_feeds": len(huge),
                       "samples": [cs[5].impl_line()[:240] + " ... -> " + impl[5][:60]],
                       "steps_compared": sum(c.args[6] for c in cs),
-                      "input_distribution": {"repair_only_block_receptions": len(blocks), "histories": len(cs), "all_source": sum(1 for c in cs if c.tag == "all_source"), "Z>1": sum(1 for c in cs if c.args[2] > 1),
+                      "input_distribution": {"large_sparse_block_receptions_release": len(big), "repair_only_block_receptions": len(blocks), "histories": len(cs), "all_source": sum(1 for c in cs if c.tag == "all_source"), "Z>1": sum(1 for c in cs if c.args[2] > 1),
                                              "N>1": sum(1 for c in cs if c.args[3] > 1), "padded": sum(1 for c in cs if c.args[0] % c.args[1]), "decoded": repaired}}}
 
 
